@@ -234,7 +234,7 @@ func runRedefineMode(sc rScenario, planningOnly bool) (bad []string) {
 	// the original may choose among equally good converter routes (map order): collect its possible results
 	wants := map[interface{}]bool{}
 	var firstWant interface{}
-	for k := 0; k < 12; k++ {
+	for k := 0; k < 40; k++ {
 		want := target.Call(callArgs...)
 		if want.Err() != nil {
 			bad = append(bad, "the original function fails with the same values: "+strings.Split(want.Err().Error(), "\n")[0])
@@ -248,7 +248,16 @@ func runRedefineMode(sc rScenario, planningOnly bool) (bad []string) {
 			break
 		}
 	}
-	if !sc.once && !wants[got[0].Interface()] {
+	// two converters producing the same type make the route (and so the result) a free choice
+	ambiguous := false
+	for i := range sc.convs {
+		for j := range sc.convs {
+			if i != j && sc.convs[i][1] == sc.convs[j][1] {
+				ambiguous = true
+			}
+		}
+	}
+	if !sc.once && !ambiguous && !wants[got[0].Interface()] {
 		bad = append(bad, fmt.Sprintf("redefined function returned %v, the original returns %v for the original arguments plus those values", got[0].Interface(), firstWant))
 	}
 	// C09: a run-once converter executed at most once over both real uses
